@@ -124,3 +124,61 @@ Theorem C08_undo_regular_deletion_blocks :
     = exp_cached HO (mk_ctx HO s) (cached_after_undo HO (cached_after HO C hs (pick adds rem)) adds).
 Proof. exact @proof_undo_regular_deletions. Qed.
 Print Assumptions C08_undo_regular_deletion_blocks.
+
+(** ** EVERY valid block (Proofs/ProofUndoDel2.v): the regularity hypothesis removed - sibling leaves,
+    whole subtrees and whole trees deleted together.  This is the full statement of C08 for the mirror
+    of Proof.Undo: after Undo with the block's data the client holds exactly the expected (canonical)
+    cached proof, in the previous state, of the leaves it held before the block that the block did not
+    delete - never a leaf the block added, nothing invented, nothing else lost. *)
+From Utreexo Require Import Model.Verify Proofs.StumpUpdate Proofs.LightClient Proofs.ProofUndoDel2.
+
+Theorem C08_undo_every_block :
+  forall (H : Type) (HO : ops H), ops_ok HO ->
+  (forall a b, NZ HO (op_hash2 HO a b)) ->
+  forall (s : slots H) (hs adds C : list H) (rem : list N),
+  (forall h, In (Some h) s -> NZ HO h) ->
+  N.of_nat (length s + length adds) <= 2 ^ 63 ->
+  NoDup (live s) -> NoDup hs ->
+  NoDup (live (kill HO hs s ++ map Some adds)) ->
+  NoDup C -> (forall h, In h C -> In (Some h) s) ->
+  forall hC' tC' pC' bt bp,
+    exp_cached HO (mk_ctx HO (apply_block HO s hs adds)) (cached_after HO C hs (pick adds rem))
+      = Some (hC', tC', pC') ->
+    exp_prove HO (mk_ctx HO s) hs = Some (bt, bp) ->
+    proof_undo HO tC' pC' (N.of_nat (length adds)) (num_leaves (apply_block HO s hs adds)) bt hs hC'
+               (ud_to_destroy (spec_update_data HO s hs adds)) bt bp
+    = exp_cached HO (mk_ctx HO s) (cached_after_undo HO (cached_after HO C hs (pick adds rem)) adds).
+Proof. exact @proof_undo_every_block. Qed.
+Print Assumptions C08_undo_every_block.
+
+(** a light client (mirror of Stump.Update + Proof.Update/Undo) that processes a block and then undoes
+    it is in step with the state before the block, holding what it held minus the block's deletions *)
+Theorem C08_light_client_block_then_undo :
+  forall (H : Type) (HO : ops H), ops_ok HO ->
+  (forall a b, NZ HO (op_hash2 HO a b)) ->
+  forall filler : H, NZ HO filler ->
+  forall (s : slots H) (C : list H) (cl : client H) (b : cblock H),
+    (forall h, In (Some h) s -> NZ HO h) -> NoDup (live s) -> NoDup C ->
+    N.of_nat (length s + length (snd (fst b))) <= 2 ^ 63 ->
+    in_step H HO s C cl -> cblock_ok H HO s b ->
+    exists cl' cl0,
+      client_step H HO filler s cl b = Some cl' /\
+      client_undo H HO filler s cl' b = Some cl0 /\
+      in_step H HO s (removeH HO C (fst (fst b))) cl0.
+Proof. exact client_step_undo. Qed.
+Print Assumptions C08_light_client_block_then_undo.
+
+(** "This composes": undoing the last k blocks newest first leaves the client in step with the state
+    k blocks ago ([undo_ok]: the k blocks with their pre-states; [in_step]: stump = stump of the
+    reference, cached proof = expected cached proof) *)
+Theorem C08_light_client_undo_to_any_depth :
+  forall (H : Type) (HO : ops H), ops_ok HO ->
+  (forall a b, NZ HO (op_hash2 HO a b)) ->
+  forall filler : H, NZ HO filler ->
+  forall (hist : list (slots H * cblock H)) (sTop : slots H) (C' : list H) (cl : client H),
+    NoDup C' -> undo_ok H HO sTop hist -> in_step H HO sTop C' cl ->
+    exists C0 cl0,
+      undo_run H HO filler hist C' cl = Some (C0, cl0) /\
+      in_step H HO (undo_bottom H sTop hist) C0 cl0 /\ NoDup C0.
+Proof. exact light_client_undo_depth. Qed.
+Print Assumptions C08_light_client_undo_to_any_depth.
